@@ -86,6 +86,7 @@ func (ss sizesim) Run(c *Case, dir string) *Outcome {
 	}
 	e := work.NewExec(path, c.Prog.Cfg)
 	e.FileChecks = true
+	e.RollbackAfterFailedCommit = c.Run%4 >= 2 // half of the runs use the `defer tx.Rollback()` idiom
 	limit := int64(c.Prog.Cfg.MaxSize)
 	bound := limit // max(MaxSize, length at open)
 	fail := func(class, f string, a ...any) {
@@ -176,7 +177,7 @@ func (ss sizesim) Run(c *Case, dir string) *Outcome {
 				e.CheckFile(st.Tx.End)
 				if e.LastErr != nil {
 					for _, v := range e.Viol {
-						if v.Prop != "C18" {
+						if v.Prop != "C18" && v.Prop != c.Prop {
 							v.Msg = v.Prop + "/" + v.Class + ": " + v.Msg
 							v.Prop, v.Class = "C18", "state-after-size-limit-failure"
 						}
